@@ -57,6 +57,7 @@ PROBES = [
     ("var o8 = {of: 1, get: 2, set: 3, in: 4, get g(){ return 5 }}; o8.of + o8.get + o8.in + o8.g", 12),
     ("var t8 = 0; for (var of8 of [1, 2]) { t8 += of8 } for (var in8 in {a: 1}) { t8 += in8 } t8", "3a"),
 ]
+N_BEHAVIOUR_PROBES = len(PROBES)
 
 LOOP_TERMINALS = ("loop_while", "loop_cb", "loop_regex", "loop_eval", "loop_getter", "loop_in_try", "loop_in_try_finally",
                   "loop_cb_in_try")
@@ -110,6 +111,28 @@ def terminal_src(op):
     return TERMINAL_SRC[op["terminal"]]
 
 
+# expressions that give the script a NEW object every time they are evaluated: what one evaluation
+# writes on such an object must never be found on the one the next evaluation gets
+FRESH = (
+    "(function(){ return arguments; })()", "(function(a){ return arguments; })()", "[]", "({})", "/x/g", "(function(){}).prototype",
+    "'a,b'.split(',')", "Object.keys({a: 1})", "[1, 2].map(function(x){ return x; })", "new Error('x')", "JSON.parse('{}')",
+    "JSON.parse('[]')", "Object.create(null)", "new Object()", "new Array()", "[].concat()", "[1].slice(1)",
+    "'abc'.match(/b/)", "/b/.exec('abc')", "[[1]][0]", "(() => 1)", "(function(){})", "Object.values({})",
+    "Object.entries({})", "[].filter(function(){ return true; })", "new RegExp('x')", "Object(1)", "new String('s')",
+)
+
+
+def fresh_probe_src(k):
+    return ("(function(){ var t9 = %s; return String(t9.zq9) + '|' + String(t9[0]) + '|' + String(t9.length); })()" % FRESH[k])
+
+
+PROBES += [(fresh_probe_src(k), None) for k in range(len(FRESH))]
+FRESH_ALL = len(PROBES)      # every fresh-object expression looked at in one evaluation
+# (an array literal that continues with a member access is wrapped: the parser's nested-array fast
+# path does not accept `[[1].x]`)
+PROBES.append(("[" + ", ".join("(%s)" % f if f.startswith("[") else f for f in FRESH) + "].map(function(t9){ return String(t9.zq9) + '|' + String(t9[0]) + '|' + String(t9.length); }).join(';')", None))
+
+
 # ------------------------------------------------------------------ generation
 def gen_effect(rng, vals):
     v = vals[0]
@@ -128,10 +151,12 @@ def gen_effect(rng, vals):
         return {"e": "implicit", "name": name, "v": v}
     if r < 0.84:
         return {"e": "builtin", "slot": rng.choice(BSLOTS), "v": v}
-    if r < 0.90:
+    if r < 0.88:
         return {"e": "regex", "v": v}
-    if r < 0.95:
+    if r < 0.91:
         return {"e": "rxdef", "v": v}
+    if r < 0.97:
+        return {"e": "taint", "fresh": rng.randrange(len(FRESH)), "v": v}
     return {"e": "local", "name": rng.choice(LOCALS), "v": v}
 
 
@@ -151,6 +176,10 @@ def effect_src(e):
         return "%s = %d;" % (e["slot"], e["v"])
     if k == "regex":
         return "rx = /a/g; rx.test('aaaaaa'); rx.test('aaaaaa');" if e["v"] % 2 else "rx = /a/g; rx.test('aaaaaa');"
+    if k == "taint":
+        # write on a freshly made object in every way a script can (no effect on any later evaluation)
+        return ("(function(){ var t9 = %s; try { t9.zq9 = %d; } catch (e1) {} try { if (typeof t9.push == 'function') { t9.push(%d); } else { t9[0] = %d; } } catch (e2) {} })();"
+                % (FRESH[e["fresh"] % len(FRESH)], e["v"], e["v"], e["v"]))
     if k == "local":
         return "(function(){ var %s = %d; return %s; })();" % (e["name"], e["v"], e["name"])
     if k == "rxdef":
@@ -255,7 +284,7 @@ def gen_op(rng, ctxs, vals, allow_reenter):
     if r < 0.28 and cfg["T_work"]:
         return {"op": "busy_ok", "ctx": c, "iters": int(0.45 * cfg["T_work"] / 45)}
     if r < 0.36:
-        return {"op": "probe", "ctx": c, "probe": rng.randrange(len(PROBES))}
+        return {"op": "probe", "ctx": c, "probe": FRESH_ALL if rng.random() < 0.4 else rng.randrange(len(PROBES))}
     if r < 0.44:
         return {"op": "regex_reuse", "ctx": c, "stall": rng.choice((0.0, 0.5, 3.0))}
     if r < 0.50:
